@@ -107,3 +107,75 @@ pub fn show_body(b: &[Val]) -> Vec<String> {
         if s.len() > 300 { format!("{}…", s.chars().take(300).collect::<String>()) } else { s }
     }).collect()
 }
+
+// ---- two zbus connections joined by two scripted transports (server <-> client), for the proxy properties
+
+pub struct Pair<'a> {
+    pub sched: Sched<'a>,
+    pub server: Connection,
+    pub client: Connection,
+    pub ws: Wire,
+    pub wc: Wire,
+    pub registered: BTreeMap<(usize, usize), u32>,
+}
+
+/// Move what `from` wrote since the last call into `to`'s inbound queue, in chunks of `chunk` bytes (0 = whole writes).
+fn pipe(from: &Wire, to: &Wire, chunk: usize) -> bool {
+    let mut moved: Vec<Vec<u8>> = Vec::new();
+    {
+        let mut w = from.lock();
+        let start = w.forwarded;
+        for r in &w.written[start..] {
+            moved.push(r.bytes.clone());
+        }
+        w.forwarded = w.written.len();
+    }
+    if moved.is_empty() {
+        return false;
+    }
+    for b in moved {
+        let sizes: Vec<usize> = if chunk == 0 { vec![] } else { vec![chunk] };
+        to.stage(&b, vec![], &sizes);
+    }
+    true
+}
+
+pub fn pair<'a>(rng: &mut Rng, want_ifaces: usize) -> Result<Pair<'a>, String> {
+    let ws = Wire::new(rng.next_u64());
+    let wc = Wire::new(rng.next_u64());
+    let mut sched = Sched::new(Rng::new(rng.next_u64()));
+    let bias = *rng.pick(&[(4u64, 3u64, 2u64), (6, 1, 6), (1, 6, 1), (2, 2, 6), (1, 1, 1)]);
+    sched.w_ex = bias.0;
+    sched.w_h = bias.1;
+    sched.w_net = bias.2;
+    let server = connect_authenticated(&mut sched, &ws)?;
+    let client = connect_authenticated(&mut sched, &wc)?;
+    let chunk_sc = *rng.pick(&[0usize, 0, 1, 7, 64]);
+    let chunk_cs = *rng.pick(&[0usize, 0, 1, 7, 64]);
+    let (a, b) = (ws.clone(), wc.clone());
+    sched.add_net(Box::new(move || pipe(&a, &b, chunk_sc)));
+    let (a, b) = (wc.clone(), ws.clone());
+    sched.add_net(Box::new(move || pipe(&a, &b, chunk_cs)));
+    let a = ws.clone();
+    sched.add_net(Box::new(move || a.release_one()));
+    let a = wc.clone();
+    sched.add_net(Box::new(move || a.release_one()));
+    let mut registered = BTreeMap::new();
+    let mut instance = 0u32;
+    let mut chosen: Vec<usize> = (0..IFACES.len()).collect();
+    rng.shuffle(&mut chosen);
+    for &i in chosen.iter().take(want_ifaces.min(IFACES.len())) {
+        let p = rng.usize_below(PATHS.len());
+        instance += 1;
+        let inst = instance;
+        let c = server.clone();
+        match run_task(&mut sched, async move { register(c.object_server(), i, PATHS[p], inst).await }) {
+            Some(Ok(true)) => {
+                registered.insert((p, i), inst);
+            }
+            other => return Err(format!("registration failed: {other:?}")),
+        }
+    }
+    sched.run_to_quiescence();
+    Ok(Pair { sched, server, client, ws, wc, registered })
+}
